@@ -654,6 +654,15 @@ pub fn run(c: &Case, o: &mut Outcome) -> Result<(), Failure> {
     for (k, v) in header_map(&c.req_md).iter() {
         req.headers_mut().append(k.clone(), v.clone());
     }
+    // the caller's compression offer (or its absence) is the caller's business
+    let offer: Option<&'static str> = match c.req_md.len() % 3 {
+        0 => Some("gzip"),
+        1 => None,
+        _ => Some("identity"),
+    };
+    if let Some(v) = offer {
+        req.headers_mut().insert("grpc-accept-encoding", http::HeaderValue::from_static(v));
+    }
     let sent_headers = req.headers().clone();
     let sent_uri = req.uri().clone();
 
@@ -766,6 +775,9 @@ pub fn run(c: &Case, o: &mut Outcome) -> Result<(), Failure> {
     if let Err(e) = headers_carry(&parts.headers, &c.req_md) {
         bail!("C16/request-metadata", "request metadata changed on the way to the inner service: {e}");
     }
+    let seen_offer: Vec<Vec<u8>> = parts.headers.get_all("grpc-accept-encoding").iter().map(|v| v.as_bytes().to_vec()).collect();
+    let want_offer: Vec<Vec<u8>> = offer.iter().map(|v| v.as_bytes().to_vec()).collect();
+    ensure!(seen_offer == want_offer, "C16/request-metadata/compression-offer", "the caller sent grpc-accept-encoding {:?}, the inner service saw {:?}", offer, seen_offer.iter().map(|v| String::from_utf8_lossy(v).to_string()).collect::<Vec<_>>());
     let req_budget = 8 + pend_sum(&c.req, req_chunks.len());
     let got = drain(seen_body, req_budget, honor);
     let mode = if req_text { "text" } else { "binary" };
